@@ -9,6 +9,31 @@ from .program import Program, AnalysisError
 from .report import Check, finish, VERIF
 
 
+def thorough_selftest(chk, pid, repo):
+    """Thorough tier: replay the rule self-test for this property on scratch copies of the CURRENT tree (mutants must be
+    refuted, behaviour-preserving twins must pass).  Outcomes are evidence about the checker; they never change the verdict
+    on the tree itself."""
+    import concurrent.futures as cf
+    sys.path.insert(0, VERIF)
+    from selftest import run as st
+    if repo:
+        st.REPO = repo
+    vs = st.load_variants({pid})
+    res = {"variants": len(vs), "as_expected": 0, "not_as_expected": [], "unlocated": []}
+    with cf.ThreadPoolExecutor(max_workers=16) as ex:
+        for v, status, err, out in ex.map(st.run_one, vs):
+            if status in ("CAUGHT", "SILENT"):
+                res["as_expected"] += 1
+            elif status == "UNLOCATED":
+                res["unlocated"].append(v["id"])
+            else:
+                res["not_as_expected"].append("%s:%s" % (v["id"], status))
+    chk.selftest = res
+    chk.note("selftest on scratch copies of the current tree: %d variants (%d breaking, %d twins): %d as expected, %d construct not located, %d not as expected %s"
+             % (len(vs), sum(1 for v in vs if v["kind"] == "break"), sum(1 for v in vs if v["kind"] == "twin"), res["as_expected"],
+                len(res["unlocated"]), len(res["not_as_expected"]), res["not_as_expected"][:6]))
+
+
 def main(argv=None):
     ap = argparse.ArgumentParser()
     ap.add_argument("pid")
@@ -28,8 +53,10 @@ def main(argv=None):
                 rep = json.load(f)
             keys = {(v["rule"], v["construct"]) for v in rep.get("violations", [])}
             chk.obs = [o for o in chk.obs if (o.rule, o.construct) in keys] or chk.obs
-        if a.tier == "thorough" and hasattr(mod, "thorough"):
-            mod.thorough(chk)
+        if a.tier == "thorough":
+            if hasattr(mod, "thorough"):
+                mod.thorough(chk)
+            thorough_selftest(chk, pid, a.repo)
         code = finish(chk, seed)
     except AnalysisError as e:
         print("ANALYSIS-ERROR property=%s: %s" % (pid, e))
